@@ -118,8 +118,31 @@ pub fn make_net(frame_data: u64) -> Net {
 }
 
 pub fn make_env(devices: Vec<Device>, frame_data: u64, timeouts: Timeouts, seed: u64, id: &str) -> Env {
+    make_env_seg(Segment::line(devices), frame_data, timeouts, seed, id)
+}
+
+/// `"parent": [[device, port] ..]` (`[-1, -1]` for device 0): a tree instead of a line. `None` if the
+/// simulator rejects the topology.
+pub fn segment_from_case(case: &Value, devices: Vec<Device>) -> Option<Segment> {
+    let Some(list) = case.get("parent").and_then(|p| p.as_array()) else {
+        return Some(Segment::line(devices));
+    };
+    if list.len() != devices.len() {
+        return None;
+    }
+    let parent: Vec<Option<(usize, u8)>> = list
+        .iter()
+        .map(|p| {
+            let a = p.get(0).and_then(|x| x.as_i64()).unwrap_or(-1);
+            let b = p.get(1).and_then(|x| x.as_i64()).unwrap_or(-1);
+            (a >= 0 && b >= 0).then_some((a as usize, b as u8))
+        })
+        .collect();
+    std::panic::catch_unwind(std::panic::AssertUnwindSafe(|| Segment::with_topology(devices, parent))).ok()
+}
+
+pub fn make_env_seg(mut seg: Segment, frame_data: u64, timeouts: Timeouts, seed: u64, id: &str) -> Env {
     simrun::reset_clock();
-    let mut seg = Segment::line(devices);
     seg.loopback_when_empty = true;
     // Seeded, case specific clock offsets and link delays (only visible through DC registers).
     let mut h = seed ^ 0x9E37_79B9_7F4A_7C15;
@@ -316,7 +339,9 @@ pub fn device_from_json(v: &Value, position: usize) -> Device {
     desc.group_idx = 0;
     desc.image_idx = 0;
     if named {
-        desc.order_idx = desc.add_string(&format!("DEV{tag}"));
+        // "name": the string ethercrab reports as the device's name (default DEV<tag>)
+        let name = get_str(v, "name", "");
+        desc.order_idx = desc.add_string(&if name.is_empty() { format!("DEV{tag}") } else { name.to_string() });
         desc.name_idx = desc.add_string(&format!("Device number {tag}"));
     }
     desc.vendor_id = 0x0000_0A00u32.wrapping_add(tag);
@@ -325,6 +350,19 @@ pub fn device_from_json(v: &Value, position: usize) -> Device {
     desc.serial = 0x5000u32.wrapping_add(tag);
     desc.alias = get_u64(v, "alias", 0) as u16;
 
+    if kind == "coe" {
+        // "mbx_recv" / "mbx_send": mailbox sizes (16..=128 each) other than the stock 128 / 128
+        let recv = get_u64(v, "mbx_recv", 128).clamp(16, 128) as u16;
+        let send = get_u64(v, "mbx_send", 128).clamp(16, 128) as u16;
+        if let Some(m) = desc.mailbox.as_mut() {
+            m.recv_size = recv;
+            m.send_size = send;
+            m.bootstrap[1] = recv;
+            m.bootstrap[3] = send;
+        }
+        desc.sync_managers[0].length = recv;
+        desc.sync_managers[1].length = send;
+    }
     if kind != "coupler" && kind != "coe" {
         // dio: SM/FMMU indices line up (ethercrab's EEPROM path uses FMMU[sm index])
         desc.sync_managers.clear();
